@@ -10,7 +10,8 @@ from ..runner import Rec, h64
 
 PROPERTY = "C13"
 LEVEL = "fault_enumeration"
-RULE = ("case = one tool entry point (API or main() with sys.argv) x invocation form (explicit / default output) x path form "
+RULE = ("case = one tool entry point (API or main() with sys.argv) x invocation form (explicit / default output / output = the "
+        "existing directory that holds the inputs) x path form "
         "(relative, ./x, trailing slash, absolute, absolute + slash; cwd = parent of the input or elsewhere) on a generated "
         "2-level input; executions = the plain run, the run on each deliberately broken input (missing binary, missing level "
         "header, unknown field) and one faulted run per counted write point (open-for-write, write, mkdir, rmtree, rename, "
@@ -223,6 +224,15 @@ def cases(tier, seed):
                     do_broken = pf == ("parent", "rel") and oi == 0
                     out.append({"tool": name, "outmode": om, "opt": oi, "pathform": list(pf), "faults": do_faults,
                                 "broken": do_broken, "seed": seed, "w": 30 if do_faults and om != "none" else 1})
+    # requested output = an EXISTING directory that contains the inputs (e.g. `-o .` next to the plotfile): whatever the
+    # tool does with it (write into it, refuse), nothing inside an input may be created, changed or deleted
+    for name, (fn, kind, two, outmodes, opts, broken) in sorted(TOOLS.items()):
+        if "explicit" not in outmodes or name == "chef_builtin":
+            continue
+        for oi, opt in enumerate(opts):
+            for pf in (("parent", "rel"), ("parent", "slash"), ("else", "rel"), ("else", "abs")):
+                out.append({"tool": name, "outmode": "parent", "opt": oi, "pathform": list(pf), "faults": False, "broken": False,
+                            "seed": seed, "w": 1})
     return out
 
 
@@ -306,6 +316,9 @@ def execute(case, env, fail_at=None, breakage=None):
         if os.path.isabs(out):
             os.makedirs(os.path.dirname(out), exist_ok=True)
         out_abs = os.path.realpath(os.path.join(cwd, out))
+    elif case["outmode"] == "parent":
+        out = path_form(env.indir, cwd, form)
+        out_abs = os.path.realpath(env.indir)
     else:
         out = None
         out_abs = None
